@@ -385,6 +385,7 @@ struct Variant {
 static Json::Value applyVariant(const Json::Value& scenario, const Variant& v) {
   Json::Value p = scenario;
   p["prop"] = "C10v";
+  p["root_tag"] = "C10";
   for (const auto& f : v.faults)
     p["faults"].append(f);
   for (const auto& e : v.edits)
@@ -556,6 +557,7 @@ static void runC10() {
   // 1. fault-free execution: must be clean, yields the access sequence
   Json::Value base = scenario;
   base["prop"] = "C10v";
+  base["root_tag"] = "C10";
   SubResult b = runInChild(base, [] { return execVariant(true); });
   if (!b.clean || !b.report["violations"].empty() || !b.report["ran"].asBool()) {
     std::string d = !b.clean ? b.crashClause + " " + b.crashDetail.substr(0, 800)
